@@ -4,6 +4,8 @@ import Libp2pModel.Proofs.C14Bytes
 import Libp2pModel.Proofs.C15Frame
 import Libp2pModel.Proofs.C14Reader
 import Libp2pModel.Proofs.C14Net
+import Libp2pModel.Proofs.C14NetLazy
+import Libp2pModel.Proofs.C14NetW
 /-!
 # C14 — property theorems
 
@@ -314,6 +316,52 @@ theorem bytes_agree (P : Params) (hv : ∀ d ∈ P.ds, validName d = true) (hj :
   · intro rd hs h
     exact dialer_outcome P hv sched rd (by rw [← hrel.hs]; exact hs) (by rw [← hrel.hd]; exact h)
 
+/-- **Byte-level refinement with optimistic `V1Lazy` data** (`bexecA`, Model/C14_NetLazy.lean: the
+lazily settling dialer writes its application data `A` right behind the negotiation bytes): every
+run is matched by a message-level run with `junk = junkOf A`.  `A` must not parse as a negotiation
+message (`junkOf A` is an error, or `A` is empty) — the documented `V1Lazy` pitfall. -/
+theorem bytes_refine_lazy_msg (P : Params) (A : Bytes) (hv : ∀ d ∈ P.ds, validName d = true)
+    (hjA : P.junk = junkOf A) (hok : A = [] ∨ ∃ e, junkOf A = some e) (bs : List BMove) :
+    ∃ sched, RelA A (bexecA P A bs) (exec P sched) := bytes_refine_lazy P A hv hjA hok bs
+
+/-- **Agreement at byte granularity with optimistic data, for every chunking/delivery schedule**:
+the listener's outcome is `ds.find? (· ∈ ls)` / `Failed` — the same as for V1 —, and the dialer's
+final result (for the lazy exit: what its `Negotiated` stream reports) too. -/
+theorem bytes_agree_lazy (P : Params) (A : Bytes) (hv : ∀ d ∈ P.ds, validName d = true)
+    (hjA : P.junk = junkOf A) (hok : A = [] ∨ ∃ e, junkOf A = some e) (bs : List BMove) :
+    (∀ rl, (bexecA P A bs).l = .done rl → rl = expected P.ds P.ls) ∧
+    (∀ rd, (bexecA P A bs).started = true → (bexecA P A bs).d = .done rd →
+      rd = expected P.ds P.ls) := by
+  obtain ⟨sched, hrel⟩ := bytes_refine_lazy P A hv hjA hok bs
+  refine ⟨?_, ?_⟩
+  · intro rl h
+    exact listener_outcome P hv sched rl (by rw [← hrel.hl]; exact h)
+  · intro rd hs h
+    exact dialer_outcome P hv sched rd (by rw [← hrel.hs]; exact hs) (by rw [← hrel.hd]; exact h)
+
+/-- **Write path** (`wexec`, Model/C14_NetW.lean: every side has a write buffer, a poll writes at
+most `k` bytes of it, reads its next frame only once the buffer is flushed, and puts its answer —
+and at the lazy exit the application data — into the buffer): after forgetting the buffers every
+run is a run of the atomic-send network. -/
+theorem write_path_refines (P : Params) (A : Bytes) (ws : List WMove) :
+    ∃ bs : List BMove, wabs (wexec P A ws) = bexecA P A bs := wexec_refines P A ws
+
+/-- **Agreement for every chunking AND write-readiness schedule**: in the network with write
+buffers, partial writes, flush-before-read, arbitrary readable prefixes and optimistic `V1Lazy`
+data, whenever a side has finished its result is `ds.find? (· ∈ ls)` / `Failed`. -/
+theorem wire_agree (P : Params) (A : Bytes) (hv : ∀ d ∈ P.ds, validName d = true)
+    (hjA : P.junk = junkOf A) (hok : A = [] ∨ ∃ e, junkOf A = some e) (ws : List WMove) :
+    (∀ rl, (wexec P A ws).b.l = .done rl → rl = expected P.ds P.ls) ∧
+    (∀ rd, (wexec P A ws).b.started = true → (wexec P A ws).b.d = .done rd →
+      rd = expected P.ds P.ls) := by
+  obtain ⟨bs, hbs⟩ := wexec_refines P A ws
+  have hl : (wexec P A ws).b.l = (bexecA P A bs).l := by rw [← hbs]; rfl
+  have hd : (wexec P A ws).b.d = (bexecA P A bs).d := by rw [← hbs]; rfl
+  have hs : (wexec P A ws).b.started = (bexecA P A bs).started := by rw [← hbs]; rfl
+  obtain ⟨h1, h2⟩ := bytes_agree_lazy P A hv hjA hok bs
+  exact ⟨fun rl h => h1 rl (by rw [← hl]; exact h),
+    fun rd hs' h => h2 rd (by rw [← hs]; exact hs') (by rw [← hd]; exact h)⟩
+
 /-! ## 6. summary -/
 
 /-- the property at full strength: for every input, the byte-level network — and, beyond what
@@ -332,10 +380,19 @@ def full_statement : Prop :=
    send is read back as itself (`C15.frame_prefix`);
 3. transparency of the read path on both sides and for the lazy dialer: after the negotiation
    exactly the negotiation frames have been consumed, whatever application bytes follow them.
-Not proved in Lean (covered by the correspondence runs only): that the byte-level network run
-under an arbitrary chunking/readiness schedule projects onto a message-level schedule
-(`full_statement`), i.e. the write path (`poll_write_buffer`/flush ordering) and `Pending` handling
-of the real futures. -/
+4. byte granularity (`bytes_refine_msg`, `bytes_agree`, `bytes_refine_lazy_msg`, `bytes_agree_lazy`):
+   the network whose channels carry bytes, each poll seeing an arbitrary prefix of the unconsumed
+   bytes (chunking, delivery delay, partial writes), with or without optimistic `V1Lazy` data,
+   refines the message-level system, so the outcomes are the same for every such schedule; and
+   the incremental `poll_next` state machine refines the batch frame decoder (`pollNext_refines`).
+5. write path (`write_path_refines`, `wire_agree`): the network in which every side has a write
+   buffer, writes it in arbitrary pieces and reads only after it is flushed refines the atomic one,
+   so agreement holds for every chunking AND write-readiness schedule.
+Not proved in Lean (covered by the correspondence runs only): that the futures' explicit states
+(`SendHeader`/`SendProtocol`/`FlushProtocol`/`AwaitProtocol`, `RecvHeader`/…/`Flush`, `poll_ready`)
+implement the "flush, then read one frame, then buffer the answer" poll of `C14.wStepD/wStepL`;
+the application phase after the negotiation (write all, half-close, read to EOF) as a whole; and
+that the executable network `C14.simulate` satisfies the Spec for all inputs (`full_statement`). -/
 theorem agree_partial (P : Params) (hv : ∀ d ∈ P.ds, validName d = true) (sched : List Move) :
     (∀ rl, (exec P sched).l = .done rl → rl = expected P.ds P.ls) ∧
     (∀ rd, (exec P sched).started = true → (exec P sched).d = .done rd → rd = expected P.ds P.ls) ∧
@@ -377,3 +434,7 @@ end C14
 #print axioms C14.atEof_eq
 #print axioms C14.bytes_refine_msg
 #print axioms C14.bytes_agree
+#print axioms C14.bytes_refine_lazy_msg
+#print axioms C14.bytes_agree_lazy
+#print axioms C14.write_path_refines
+#print axioms C14.wire_agree
